@@ -17,7 +17,7 @@ from .c01 import PRELUDE as PRELUDE01, parse_nested, zlist
 THEOREMS = [
     "C02_command_regex_shape", "C02_print_parse", "C02_parse_print", "C02_reparse_stable",
     "C02_len_is_bytecount", "C02_from_attrs_preserves", "C02_nonvacuous",
-    "C02_comment_is_opaque", "C02_hint_and_comment", "C02_error_before_comment",
+    "C02_comment_is_opaque", "C02_hint_and_comment", "C02_error_before_comment", "C02_cli_triple_kept", "C02_cli_short_forms", "C02_cli_toks_triple_kept", "C02_cli_toks_triple_kept_no_seqn",
 ]
 
 PRELUDE = PRELUDE01 + (
@@ -176,6 +176,7 @@ def run(ctx: Ctx) -> None:
                 ctx.violation("cli-form-alters", "from_cli does not preserve verb/seqn/code/payload", {"cli": cli, "got": list(got)})
 
     # ---------------------------------------------------------- O3: CLI short form
+    cli_cases, cli_impl = [], []
     for _ in range(600 if thorough else 200):
         verb = rng.choice(["RQ", "RP", " I", " W", "I", "W"])
         a, b = "01:123456", "13:654321"
@@ -191,9 +192,12 @@ def run(ctx: Ctx) -> None:
         if a == b and form in (1, 3, 4):
             triple = None
         cli = " ".join([verb.strip(), seq, *parts, code, payload]).replace("  ", " ")
+        cli_cases.append("[" + "; ".join(f"sz {zlist(x)}" for x in cli.upper().split()) + "]")
         try:
             c = Command.from_cli(cli)
+            cli_impl.append([0] + list(str(c).encode()))
         except (exc.CommandInvalid, exc.PacketInvalid):
+            cli_impl.append([2])
             ctx.case(("cli", cli), False, "cli:rejected")
             continue
         ctx.case(("cli", cli), True, "cli:accepted")
@@ -205,6 +209,8 @@ def run(ctx: Ctx) -> None:
         if triple is not None and tuple(str(c).split()[2:5]) != triple:
             ctx.violation("cli-form-alters-addresses", "from_cli built a frame whose three address fields are not the ones given", {"cli": cli, "frame": str(c), "expected_addresses": list(triple)})
 
+    files["x4"] = (PRELUDE + "Eval vm_compute in (map (fun toks : list str => "
+                   "match cmd_from_cli_toks toks with Ok f => 0 :: zs (print_frame f) | Raise e => [exc e] end) " + common.coq_list(cli_cases, ";\n ") + ").")
     if built:
         res = common.coq_eval("C02", files, timeout=900)
         model = []
@@ -228,9 +234,19 @@ def run(ctx: Ctx) -> None:
             bad = [i for i, (a, b) in enumerate(zip(m2, at_impl)) if list(a) != list(b)]
             ctx.obligation("correspondence:_from_attrs", not bad and len(m2) == len(at_impl), "correspondence",
                            f"{len(bad)} differ; first {at_cases[bad[0]][:200]}: model {bytes(m2[bad[0]][1:])!r}/{m2[bad[0]][:1]} impl {bytes(at_impl[bad[0]][1:])!r}/{at_impl[bad[0]][:1]}" if bad else "")
+        rc, out = res["x4"]
+        if rc:
+            ctx.obligation("correspondence:from_cli", False, "correspondence", out[-400:])
+        else:
+            m4 = parse_nested(out)
+            bad = [i for i, (a, b) in enumerate(zip(m4, cli_impl)) if list(a) != list(b)]
+            ctx.obligation("correspondence:from_cli", not bad and len(m4) == len(cli_impl), "correspondence",
+                           f"{len(bad)} differ; first {cli_cases[bad[0]][:300]}: model {bytes(m4[bad[0]][1:])!r}/{m4[bad[0]][:1]} impl {bytes(cli_impl[bad[0]][1:])!r}/{cli_impl[bad[0]][:1]}" if bad
+                           else f"{len(cli_impl)} CLI strings (one / two / three address tokens, every shape, any two devices): the frame built is the model's")
     else:
         ctx.obligation("correspondence:Command(frame)", False, "correspondence", "model not built")
         ctx.obligation("correspondence:_from_attrs", False, "correspondence", "model not built")
+        ctx.obligation("correspondence:from_cli", False, "correspondence", "model not built")
 
     partition_correspondence(ctx, built)
     log_roundtrip(ctx, built, 2500 if thorough else 600)
